@@ -28,6 +28,10 @@ pub const NOFLAGS: Flags = Flags {
     upgrade: None,
 };
 pub static mut FLAGS: Flags = NOFLAGS;
+/// outcome of the implementation serving message j, when it is a constant of the harness instance
+/// (255: solver-chosen). With a constant Err the error value handle() receives is concrete, so a
+/// changed handle() that drops it (swallows the error) stays within CBMC's reach.
+pub static mut PIN_OUTCOME: [u8; KMAX] = [255; KMAX];
 /// serde_json error category of the malformed message (constant of the harness instance)
 pub static mut ERR_KIND: u8 = 0;
 
@@ -156,6 +160,11 @@ fn check_stream<const N: usize>(k: usize, data: [u8; N], tail: &[u8], fail_at: u
         kani::assume(sc.msgs[j].target == targets[j]);
         sc.msgs[j].parse_ok = j != fail_at;
         sc.msgs[j].target = targets[j];
+        let pin = unsafe { PIN_OUTCOME[j] };
+        if pin != 255 {
+            kani::assume(sc.msgs[j].outcome == pin);
+            sc.msgs[j].outcome = pin;
+        }
         j += 1;
     }
     install(&sc, fail_at, flags);
@@ -305,6 +314,32 @@ macro_rules! malformed_kind_harness {
         }
     };
 }
+macro_rules! pinned_outcome_harness {
+    ($name:ident, $k:expr, $data:expr, $tail:expr, $pins:expr) => {
+        #[kani::proof]
+        #[kani::unwind(8)]
+        #[kani::stub(core::slice::memchr::memchr, stubs::naive_memchr)]
+        #[kani::stub(core::slice::memchr::memrchr, stubs::memrchr_guarded)]
+        #[kani::stub(std::io::BufReader::new, stubs::small_bufreader)]
+        #[kani::stub(serde_json::to_string, stubs::to_string)]
+        #[kani::stub(serde_json::to_value, stubs::to_value)]
+        #[kani::stub(serde_json::from_slice, stubs::from_slice)]
+        #[kani::stub(alloc::fmt::format, stubs::format)]
+        #[kani::stub(alloc::string::String::from_utf8_lossy, stubs::from_utf8_lossy)]
+        #[kani::stub(std::hash::RandomState::new, stubs::fixed_random_state)]
+        #[kani::stub(crate::VarlinkService::call, dispatch_model)]
+        #[kani::stub(crate::Call::reply_interface_not_found, inf_model)]
+        fn $name() {
+            unsafe { PIN_OUTCOME = $pins };
+            check_stream($k, $data, $tail, NOFAIL, NOFLAGS, [D, D, D]);
+        }
+    };
+}
+// the implementation serving the first (second) message fails / upgrades; the rest is solver-chosen
+pinned_outcome_harness!(c01_k2_err_first, 2, M2, b"t", [O_ERR, 255, 255]);
+pinned_outcome_harness!(c01_k3_err_second, 3, M3, b"", [O_OK, O_ERR, 255]);
+pinned_outcome_harness!(c01_k2_upgrade_first, 2, M2, b"t", [O_UPGRADE, 255, 255]);
+
 // the malformed message is a truncated document (serde_json error category Eof)
 malformed_kind_harness!(c06_k1_truncated, 1, M1, b"t", 0, 1);
 malformed_kind_harness!(c06_k2_first_truncated, 2, M2, b"t", 0, 1);
